@@ -154,6 +154,8 @@ pub mod ev {
     /// a = space index, b = 0: every page of the space is released; b = top: pages above `top`
     /// are released (monotone page resources).
     pub const PAGES_RESET: u32 = 25;
+    /// `Space::acquire` returns no pages; a = 1 if the page resource was asked and failed.
+    pub const ACQUIRE_FAIL: u32 = 26;
 }
 
 /// Fault kinds.
